@@ -9,6 +9,7 @@ package main
 
 import (
 	"flag"
+	"time"
 	"fmt"
 	"math/big"
 	"sort"
@@ -17,6 +18,7 @@ import (
 	sdkmath "cosmossdk.io/math"
 	dbm "github.com/cometbft/cometbft-db"
 	sdk "github.com/cosmos/cosmos-sdk/types"
+	sdkvesting "github.com/cosmos/cosmos-sdk/x/auth/vesting/types"
 	banktypes "github.com/cosmos/cosmos-sdk/x/bank/types"
 	distrtypes "github.com/cosmos/cosmos-sdk/x/distribution/types"
 	stakingkeeper "github.com/cosmos/cosmos-sdk/x/staking/keeper"
@@ -26,6 +28,8 @@ import (
 	ethtypes "github.com/ethereum/go-ethereum/core/types"
 
 	"github.com/haqq-network/haqq/utils"
+	liquidvestingtypes "github.com/haqq-network/haqq/x/liquidvesting/types"
+	vestingtypes "github.com/haqq-network/haqq/x/vesting/types"
 	evmtypes "github.com/haqq-network/haqq/x/evm/types"
 )
 
@@ -37,6 +41,7 @@ type pceqCase struct {
 	Val    string `json:"val"`    // V1 | V2 | unknown | badbech32
 	Amt    string `json:"amt"`    // amount class
 	Height string `json:"height"` // ok | wrong (cancelUnbonding)
+	To     string `json:"to"`     // T | self (setWithdrawAddress)
 }
 
 type pceqState struct {
@@ -79,6 +84,7 @@ func pceqBuild(seed int64, kind string) *pceqState {
 		}
 	}
 	if kind != "noDeleg" && kind != "operator" {
+		// (also for "slashed")
 		add(S, stakingtypes.NewMsgDelegate(S.Addr, w.Vals[0].ValAddr(), coin("1000000000000000000000")))
 		add(S, stakingtypes.NewMsgDelegate(S.Addr, w.Vals[1].ValAddr(), coin("300000000000000000000")))
 		add(S, stakingtypes.NewMsgUndelegate(S.Addr, w.Vals[0].ValAddr(), coin("5000000")))
@@ -87,13 +93,67 @@ func pceqBuild(seed int64, kind string) *pceqState {
 	if kind == "wdOther" {
 		add(S, distrtypes.NewMsgSetWithdrawAddress(S.Addr, ew.Roles["W"].Addr))
 	}
+	if kind == "slashed" {
+		// a vesting account past its vesting but inside its lockup, funded for fees
+		vx := w.Acct("vx1")
+		a := sdk.NewCoins(coin("3000000000000000000000"))
+		add(S, vestingtypes.NewMsgCreateClawbackVestingAccount(S.Addr, vx.Addr, n.Time.Add(-20*time.Second),
+			sdkvesting.Periods{{Length: 3000, Amount: a}}, sdkvesting.Periods{{Length: 1, Amount: a}}, false))
+		add(S, banktypes.NewMsgSend(S.Addr, vx.Addr, sdk.NewCoins(coin("1000000000000000000"))))
+		// an unregistered denomination that sorts before the registered ones
+		odd := sdk.NewCoins(sdk.NewCoin("aAAA", sdkmath.NewInt(4242)))
+		if err := n.App.BankKeeper.MintCoins(n.Ctx(), "coinomics", odd); err != nil {
+			panic(err)
+		}
+		if err := n.App.BankKeeper.SendCoinsFromModuleToAccount(n.Ctx(), "coinomics", S.Addr, odd); err != nil {
+			panic(err)
+		}
+		// ... and a registered coin (token pair) that sorts after it, also held by S
+		reg := sdk.NewCoins(sdk.NewCoin("azzz", sdkmath.NewInt(777000)))
+		if err := n.App.BankKeeper.MintCoins(n.Ctx(), "coinomics", reg); err != nil {
+			panic(err)
+		}
+		if err := n.App.BankKeeper.SendCoinsFromModuleToAccount(n.Ctx(), "coinomics", S.Addr, reg); err != nil {
+			panic(err)
+		}
+		md := banktypes.Metadata{Description: "registered test coin", Base: "azzz", Display: "zzz", Name: "azzz", Symbol: "ZZZ",
+			DenomUnits: []*banktypes.DenomUnit{{Denom: "azzz", Exponent: 0}, {Denom: "zzz", Exponent: 18}}}
+		if _, err := n.App.Erc20Keeper.RegisterCoin(n.Ctx(), md); err != nil {
+			panic(err)
+		}
+	}
 	n.EndBlock()
 	n.Commit()
+	if kind == "slashed" {
+		// liquid tokens (a registered coin/token pair) end up with S; then the validator S delegated to and
+		// is unbonding from double-signs: the unbonding entry's balance drops below its initial balance
+		vx := w.Acct("vx1")
+		n.BeginBlock(BlockIn{DtMs: 5000, Proposer: 0})
+		bz, err := n.CosmosTxFor(vx, 12000000, gp, liquidvestingtypes.NewMsgLiquidate(vx.Addr, S.Addr, coin("1000000000000000000000")))
+		if err != nil {
+			panic(err)
+		}
+		if res := n.Deliver(bz); res.Code != 0 {
+			panic("liquidate failed: " + res.Log)
+		}
+		n.EndBlock()
+		n.Commit()
+		n.BeginBlock(BlockIn{DtMs: 5000, Proposer: 1, Evidence: []int{0}})
+		n.EndBlock()
+		n.Commit()
+	}
 	for i := 0; i < 3; i++ {
 		r.block()
 	}
 	n.BeginBlock(BlockIn{DtMs: 5000, Proposer: 0})
 	return &pceqState{r: r, ew: ew, ctx: n.Ctx(), S: S}
+}
+
+func (st *pceqState) wdTarget(c pceqCase) sdk.AccAddress {
+	if c.To == "self" {
+		return st.S.Addr
+	}
+	return st.ew.Roles["T"].Addr
 }
 
 func (st *pceqState) valAddr(v string) string {
@@ -178,7 +238,7 @@ func (st *pceqState) native(ctx sdk.Context, c pceqCase, amt *big.Int) (ok bool,
 			msgs = append(msgs, &distrtypes.MsgWithdrawDelegatorReward{DelegatorAddress: S.Addr.String(), ValidatorAddress: v.OperatorAddress})
 		}
 	case "setWithdrawAddress":
-		msgs = []sdk.Msg{&distrtypes.MsgSetWithdrawAddress{DelegatorAddress: S.Addr.String(), WithdrawAddress: st.ew.Roles["T"].Addr.String()}}
+		msgs = []sdk.Msg{&distrtypes.MsgSetWithdrawAddress{DelegatorAddress: S.Addr.String(), WithdrawAddress: st.wdTarget(c).String()}}
 	case "withdrawCommission":
 		msgs = []sdk.Msg{&distrtypes.MsgWithdrawValidatorCommission{ValidatorAddress: sdk.ValAddress(S.Addr).String()}}
 	default:
@@ -237,7 +297,7 @@ func (st *pceqState) precompile(ctx sdk.Context, c pceqCase, amt *big.Int) (ok b
 		data, err = distrABI.Pack("claimRewards", who, uint32(10))
 	case "setWithdrawAddress":
 		to = distrPC
-		data, err = distrABI.Pack("setWithdrawAddress", who, st.ew.Roles["T"].Addr.String())
+		data, err = distrABI.Pack("setWithdrawAddress", who, st.wdTarget(c).String())
 	case "withdrawCommission":
 		to = distrPC
 		data, err = distrABI.Pack("withdrawValidatorCommission", sdk.ValAddress(st.S.Addr).String())
